@@ -378,7 +378,7 @@ def run_mpdec_vector(i, v):
     return line
 
 
-def run_vector(i, v):
+def _run_vector(i, v):
     if v['kind'] == 'mpdec':
         return run_mpdec_vector(i, v)
     if v['kind'] == 'updspell':
@@ -399,6 +399,29 @@ def _same(a, b):
         if key not in ('id',) and a[key] != b.get(key):
             return '%s: %r then %r' % (key, str(a[key])[:60], str(b.get(key))[:60])
     return ''
+
+
+class _Watchdog(BaseException):
+    pass
+
+
+def _guarded_run(i, v, seconds=20):
+    """run_vector under a watchdog: a codec call that does not come back is recorded as a raised error, not waited for"""
+    import signal
+
+    def boom(signum, frame):
+        raise _Watchdog()
+    old = signal.signal(signal.SIGALRM, boom)
+    signal.alarm(seconds)
+    try:
+        return _run_vector(i, v)
+    except _Watchdog:
+        return {'id': i, 'kind': v['kind'], 'cls': 'no-answer-within-%ds' % seconds, 'asn4': bool(v.get('asn4', True)), 'ref': list(v.get('b', [])), 'impl': [],
+                'raised': True, 'none': False, 'rt_ok': False, 'dec_ok': False, 'dec_err': False, 'diff': 'codec call did not return within %d s' % seconds,
+                'ddiff': 'codec call did not return within %d s' % seconds}
+    finally:
+        signal.alarm(0)
+        signal.signal(signal.SIGALRM, old)
 
 
 def work(args):
@@ -426,6 +449,10 @@ def work(args):
         for a in lines:
             fh.write(json.dumps(a, separators=(',', ':')) + '\n')
     return path, len(vecs)
+
+
+def run_vector(i, v):
+    return _guarded_run(i, v)
 
 
 def repass(args):
